@@ -114,11 +114,16 @@ class C13(Machine):
                    "anomalies_flag_true", "window_shorter_than_cycle",
                    "read_after_two_windows", "large_time_offset",
                    "dense_station_network", "window_dict_reused",
-                   "regular_grid")
-    real_vs_stub = {"real": ["Data, ClimateData, GeoGrid (set_window, "
+                   "regular_grid", "loaded_from_file",
+                   "non_float64_observable")
+    real_vs_stub = {"real": ["Data, ClimateData, GeoGrid (constructors, "
+                             "Load and its NetCDF import code, set_window, "
                              "set_global_window, all derived series)"],
                     "stub": ["numpy global RNG re-seeded per run "
-                             "(shuffled_anomaly)"]}
+                             "(shuffled_anomaly)",
+                             "the NetCDF reader (pyunicorn.core.data."
+                             "Dataset) is an in-process stand-in serving the "
+                             "run's samples: no HDF5 backend exists here"]}
     assumptions = [
         "coordinates and window bounds are generated exactly representable "
         "in float32, so closed-window membership does not hinge on rounding",
@@ -150,6 +155,21 @@ class C13(Machine):
                "cycle": a.choice((1, 2, 3, 4, 5, 7, 12, 12, 13)),
                "anomalies": a.random() < 0.3, "xseed": a.randrange(10 ** 9),
                "init_window": a.random() < 0.2}
+        # where the samples come from: arrays handed to the constructor (in
+        # the caller's dtype), or a data file served by the in-process
+        # stand-in for the NetCDF reader (regular lat x lon grid or station
+        # list, with or without a level axis, latitudes in any order)
+        cfg["dtype"] = a.choice(("float64",) * 5 + ("float32", "int64",
+                                                     "int16", "uint8"))
+        cfg["source"] = a.choice(("arrays", "arrays", "arrays", "file"))
+        cfg["file"] = {"type": a.choice(("NetCDF", "NetCDF", "iNetCDF")),
+                       "levels": a.choice((0, 0, 2, 3)),
+                       "level": a.choice((None, 0, 1)),
+                       "lat_order": a.choice(("asc", "desc", "desc",
+                                              "shuffled")),
+                       "lon_order": a.choice(("asc", "asc", "shuffled")),
+                       "n_lat": a.randrange(2, 5), "n_lon": a.randrange(2, 5),
+                       "names": a.random() < 0.3}
         ops = []
         if cfg["init_window"]:
             cfg["window0"] = self._window(a)
@@ -229,14 +249,41 @@ class C13(Machine):
         cfg, g = run["config"], run["grid"]
         np.random.seed((run["seed"] * 7919 + run["run"]) % (2 ** 31))
         time, lat, lon = coords(g)
-        X = G.series(g["T"], g["n"], cfg["xseed"], distinct=False)
+        src, fl = cfg.get("source", "arrays"), cfg.get("file", {})
+        if src == "file" and fl["type"] == "NetCDF":
+            # rectangular grid: node k is (lat_grid[k // n_lon],
+            # lon_grid[k % n_lon]) -- the order the file stores the samples
+            r = G.rng_of(g["gseed"] + 1)
+            lat_grid = np.array(sorted(r.sample(range(-320, 321, 10),
+                                                fl["n_lat"]))) * 0.25
+            lon_grid = np.array(sorted(r.sample(range(-700, 701, 10),
+                                                fl["n_lon"]))) * 0.25
+            if fl["lat_order"] == "desc":
+                lat_grid = lat_grid[::-1].copy()
+            elif fl["lat_order"] == "shuffled":
+                r.shuffle(lat_grid)
+            if fl["lon_order"] == "shuffled":
+                r.shuffle(lon_grid)
+            lat = np.repeat(lat_grid, len(lon_grid))
+            lon = np.tile(lon_grid, len(lat_grid))
+        n_nodes = len(lat)
+        X = G.series(g["T"], n_nodes, cfg["xseed"], distinct=False)
+        dt = cfg.get("dtype", "float64") if src == "arrays" else "float32"
+        if dt.startswith(("int", "uint")):
+            X = np.round(X * 20)
+            if dt == "uint8":
+                X = np.clip(X + 100, 0, 255)
+        X = X.astype(dt)
+        R.covered("input", f"{src}:{fl.get('type') if src == 'file' else dt}")
+        self.tol = (2e-5, 2e-5) if dt == "float32" else (1e-10, 1e-12)
         grid = GeoGrid(time_seq=time.copy(), lat_seq=lat.copy(),
                        lon_seq=lon.copy(), silence_level=2)
         cls = cfg["class"]
-        model = Model(X, time.astype(np.float32).astype(float),
+        model = Model(X.astype(float), time.astype(np.float32).astype(float),
                       lat.astype(np.float32).astype(float),
                       lon.astype(np.float32).astype(float),
-                      cfg["cycle"], cfg["anomalies"] and cls == "ClimateData")
+                      cfg["cycle"], cfg["anomalies"] and cls == "ClimateData"
+                      and src == "arrays")
         w0 = None
         held = {}                  # the caller's own window dictionary
         if cfg["init_window"]:
@@ -248,7 +295,10 @@ class C13(Machine):
                 held.update(w0)
                 w0 = held          # the constructor gets that object
         self.cls = cls
-        if cls == "Data":
+        if src == "file":
+            R.probe("loaded_from_file")
+            obj = C.call(self._load, cls, cfg, fl, X, time, lat, lon, w0)
+        elif cls == "Data":
             obj = C.call(lambda: Data(observable=X.copy(), grid=grid,
                                       window=w0, silence_level=2))
         else:
@@ -257,6 +307,8 @@ class C13(Machine):
                 anomalies=cfg["anomalies"], window=w0, silence_level=2))
             if cfg["anomalies"]:
                 R.probe("anomalies_flag_true")
+        if dt != "float64" and src == "arrays":
+            R.probe("non_float64_observable")
         if isinstance(obj, C.Raised):
             # the model says the initial window is non-empty
             self._bad(R, "constructor-raises", "init",
@@ -338,6 +390,73 @@ class C13(Machine):
         R.opsig = C.digest_of(repr(sig))
         return R.as_dict()
 
+    @staticmethod
+    def _load(cls, cfg, fl, X, time, lat, lon, w0):
+        """Data.Load / ClimateData.Load with the NetCDF reader replaced by an
+        in-process stand-in (netCDF4 legacy interface) that serves the run's
+        samples: the storage seam of the data classes."""
+        import pyunicorn.core.data as data_module
+        from pyunicorn.core.data import Data
+        from pyunicorn.climate.climate_data import ClimateData
+
+        class Variable:
+            def __init__(self, values, **attrs):
+                self._v = np.asarray(values)
+                self.__dict__.update(attrs)
+
+            def __getitem__(self, key):
+                return self._v[key].copy()
+
+            def __len__(self):
+                return len(self._v)
+
+        names = {"lat": "latitude", "lon": "longitude", "time": "t"} \
+            if fl["names"] else {"lat": "lat", "lon": "lon", "time": "time"}
+        L = fl["levels"]
+        level = fl["level"] if L else None
+        if level is not None and level >= max(L, 1):
+            level = 0
+        shape = (len(time),) + ((fl["n_lat"], fl["n_lon"])
+                                if fl["type"] == "NetCDF" else (len(lat),))
+        base = X.astype("float64").reshape(shape)
+        if L:
+            # level l holds the samples shifted by 16 (l - level): only the
+            # requested level equals the model
+            want = level or 0
+            stored = np.stack([base + 16.0 * (l_ - want) for l_ in range(L)],
+                              axis=1)
+        else:
+            stored = base
+        variables = {names["time"]: Variable(time),
+                     "obs": Variable(stored, long_name="generated")}
+        if fl["type"] == "NetCDF":
+            variables[names["lat"]] = Variable(lat[::fl["n_lon"]])
+            variables[names["lon"]] = Variable(lon[:fl["n_lon"]])
+        else:
+            variables["grid_center_lat"] = Variable(lat)
+            variables["grid_center_lon"] = Variable(lon)
+
+        class Dataset:
+            def __init__(self, name, mode="r"):
+                self.variables = variables
+
+            def ncattrs(self):
+                return []
+
+            def close(self):
+                pass
+        old = data_module.Dataset
+        data_module.Dataset = Dataset
+        try:
+            kw = dict(dimension_names=names if fl["names"] else None,
+                      window=w0, vertical_level=level, silence_level=2)
+            if cls == "Data":
+                return Data.Load("run.nc", "obs", fl["type"], **kw)
+            return ClimateData.Load("run.nc", "obs", fl["type"],
+                                    time_cycle=cfg["cycle"], **kw)
+        finally:
+            data_module.Dataset = old
+
     def _bad(self, R, inv, last, detail):
         R.violate(f"{self.pid}|{self.cls}|{inv}|{last}", detail,
                   victim=f"{self.cls}|{inv}")
@@ -387,16 +506,16 @@ class C13(Machine):
             if Xw.shape[0] < c:
                 R.probe("window_shorter_than_cycle")
             got = C.call(obj.phase_mean)
-            cmp("phase_mean", got, m.phase_mean(), (1e-10, 1e-12))
+            cmp("phase_mean", got, m.phase_mean(), self.tol)
         elif name == "anomaly":
             got = C.call(obj.anomaly)
-            if cmp("anomaly", got, m.anomaly(), (1e-10, 1e-12)) and \
+            if cmp("anomaly", got, m.anomaly(), self.tol) and \
                     not m.anomalies and not isinstance(got, C.Raised):
                 got = np.asarray(got)
                 scale = max(1.0, float(np.max(np.abs(Xw)))) if Xw.size else 1
                 for i in range(min(c, Xw.shape[0])):
                     mu = got[i::c].mean(axis=0)
-                    if np.any(np.abs(mu) > 1e-12 * scale * 10):
+                    if np.any(np.abs(mu) > self.tol[0] * scale * 10):
                         self._bad(R, "anomaly-phase-mean-nonzero", last,
                                   f"phase {i}: mean {mu}")
                         break
@@ -406,7 +525,8 @@ class C13(Machine):
                     back = np.array([got[t] + np.asarray(pm)[t % c]
                                      for t in range(Xw.shape[0])]
                                     ).reshape(Xw.shape)
-                    if not np.allclose(back, Xw, rtol=1e-10, atol=1e-12):
+                    if not np.allclose(back, Xw, rtol=self.tol[0],
+                                       atol=self.tol[1]):
                         self._bad(R, "anomaly-plus-mean", last,
                                   "anomaly + phase mean != windowed "
                                   "observable")
@@ -425,7 +545,7 @@ class C13(Machine):
             idx = np.sort(m.phase_indices()[ph, :].flatten())
             cmp("anomaly_selected_months",
                 C.call(obj.anomaly_selected_months, ph), m.anomaly()[idx, :],
-                (1e-10, 1e-12))
+                self.tol)
         elif name == "shuffled_anomaly":
             got = C.call(obj.shuffled_anomaly)
             want = m.anomaly()
@@ -434,8 +554,8 @@ class C13(Machine):
                           f"shape {np.shape(got)} vs {want.shape}: "
                           f"{C.short(got)}")
             elif not np.allclose(np.sort(np.asarray(got), axis=0),
-                                 np.sort(want, axis=0), rtol=1e-10,
-                                 atol=1e-12, equal_nan=True):
+                                 np.sort(want, axis=0), rtol=self.tol[0],
+                                 atol=self.tol[1], equal_nan=True):
                 self._bad(R, "shuffled_anomaly", last,
                           "columns are not permutations of the anomaly")
         # history invariant: the global view always reads the same
@@ -445,6 +565,8 @@ class C13(Machine):
             if name in first_global:
                 R.probe("global_restored_and_compared")
                 ok, why = C.same(got, first_global[name], (1e-12, 0.0))
+                # (the same computation on the same samples: tight in every
+                # precision)
                 if not ok:
                     self._bad(R, f"global-view-changed:{name}", last, why)
             elif not isinstance(got, C.Raised):
